@@ -4,7 +4,7 @@
 # Prints "<patch> <ID> rc=<exit code>"; rc=1 means the check caught the change.
 set -u
 patch=$(readlink -f "$1"); shift
-wt=/tmp/trypatch-$$
+wt=/tmp/trypatch-$$-$RANDOM
 git -C /repo worktree add -q --detach $wt HEAD || exit 3
 trap 'git -C /repo worktree remove --force '$wt' 2>/dev/null; rm -rf '$wt EXIT
 if ! git -C $wt apply "$patch"; then echo "$patch does not apply" >&2; exit 3; fi
